@@ -4,7 +4,10 @@ import (
 	"errors"
 	"io"
 	"os"
+	"sync"
 	"time"
+
+	"github.com/cockroachdb/errors/oserror"
 
 	gvfs "github.com/lni/vfs"
 
@@ -20,7 +23,26 @@ import (
 // every mutating operation silently "succeeds" without any effect and every
 // reading operation fails with simfs.ErrDead.
 type zfs struct {
-	v *simfs.View
+	v    *simfs.View
+	mu   sync.Mutex
+	open map[string]int // files this incarnation holds open
+}
+
+func newZFS(v *simfs.View) *zfs { return &zfs{v: v, open: map[string]int{}} }
+
+func (z *zfs) wrap(f gvfs.File, name string) gvfs.File {
+	z.mu.Lock()
+	z.open[name]++
+	z.mu.Unlock()
+	return &zfile{f: f, z: z, name: name}
+}
+
+func (z *zfs) release(name string) {
+	z.mu.Lock()
+	if z.open[name] > 0 {
+		z.open[name]--
+	}
+	z.mu.Unlock()
 }
 
 var _ gvfs.FS = (*zfs)(nil)
@@ -37,7 +59,7 @@ func (z *zfs) Create(name string) (gvfs.File, error) {
 	if err != nil {
 		return nil, err
 	}
-	return &zfile{f: f}, nil
+	return z.wrap(f, name), nil
 }
 
 func (z *zfs) Link(oldname, newname string) error {
@@ -52,7 +74,7 @@ func (z *zfs) Open(name string, opts ...gvfs.OpenOption) (gvfs.File, error) {
 	if err != nil {
 		return nil, err
 	}
-	return &zfile{f: f}, nil
+	return z.wrap(f, name), nil
 }
 
 func (z *zfs) OpenDir(name string) (gvfs.File, error) {
@@ -63,7 +85,7 @@ func (z *zfs) OpenDir(name string) (gvfs.File, error) {
 	if err != nil {
 		return nil, err
 	}
-	return &zfile{f: f}, nil
+	return z.wrap(f, name), nil
 }
 
 func (z *zfs) OpenForAppend(name string) (gvfs.File, error) {
@@ -74,14 +96,28 @@ func (z *zfs) OpenForAppend(name string) (gvfs.File, error) {
 	if err != nil {
 		return nil, err
 	}
-	return &zfile{f: f}, nil
+	return z.wrap(f, name), nil
 }
 
 func (z *zfs) Remove(name string) error {
-	if err := z.v.Remove(name); !isDead(err) {
-		return err
+	err := z.v.Remove(name)
+	if isDead(err) {
+		return nil
 	}
-	return nil
+	if err != nil && errors.Is(err, oserror.ErrInvalid) {
+		// lni/vfs MemFS refuses to remove a file that is open. simfs never
+		// closes the handles of a crashed incarnation, so a file the dead
+		// process had open can not be removed by its successor. That is an
+		// artefact of the simulated disk: unless this incarnation itself holds
+		// the file open, remove it regardless.
+		z.mu.Lock()
+		mine := z.open[name]
+		z.mu.Unlock()
+		if mine == 0 {
+			return z.v.RemoveAll(name)
+		}
+	}
+	return err
 }
 
 func (z *zfs) RemoveAll(name string) error {
@@ -106,7 +142,7 @@ func (z *zfs) ReuseForWrite(oldname, newname string) (gvfs.File, error) {
 	if err != nil {
 		return nil, err
 	}
-	return &zfile{f: f}, nil
+	return z.wrap(f, newname), nil
 }
 
 func (z *zfs) MkdirAll(dir string, perm os.FileMode) error {
@@ -140,7 +176,10 @@ func (z *zfs) GetDiskUsage(path string) (gvfs.DiskUsage, error) {
 // zfile wraps a file handle; f == nil is a pure black hole (created by a
 // zombie).
 type zfile struct {
-	f gvfs.File
+	f      gvfs.File
+	z      *zfs
+	name   string
+	closed bool
 }
 
 func (z *zfile) Seek(offset int64, whence int) (int64, error) {
@@ -153,6 +192,10 @@ func (z *zfile) Seek(offset int64, whence int) (int64, error) {
 func (z *zfile) Close() error {
 	if z.f == nil {
 		return nil
+	}
+	if !z.closed {
+		z.closed = true
+		z.z.release(z.name)
 	}
 	if err := z.f.Close(); !isDead(err) {
 		return err
